@@ -349,7 +349,9 @@ def run(p, led, tier):
                 (ups if isinstance(n.op, ast.Add) else downs if isinstance(n.op, ast.Sub) else {}).setdefault(n.target.attr, []).append(n)
         for attr in sorted(set(ups) & set(downs)):
             c = CFG(g.node, may_raise=lambda n_: any(isinstance(x, (ast.Call, ast.Raise, ast.Subscript)) for x in ast.walk(n_)))
-            down_nodes = {c.node_of(d) for d in downs[attr]}
+            # a decrement inside `finally:` exists once per way of leaving the try (the CFG copies the block): all its copies count
+            down_ids = {id(d) for d in downs[attr]}
+            down_nodes = set(c.nodes_where(lambda n_: id(n_.ast) in down_ids))
             for u in ups[attr]:
                 un = c.node_of(u)
                 key = f"{g.qual} ▸ self.{attr} raised at `{short(u)}`"
